@@ -799,7 +799,9 @@ func grpcStatusFromError(err error) (*statusv1.Status, error) {
 	}
 	if connectErr, ok := asError(err); ok {
 		status.Code = int32(connectErr.Code())
-		status.Message = connectErr.Message()
+		// Protobuf strings must be valid UTF-8; error text that quotes undecodable
+		// input may not be.
+		status.Message = strings.ToValidUTF8(connectErr.Message(), "\uFFFD")
 		details, err := connectErr.detailsAsAny()
 		if err != nil {
 			return nil, err
